@@ -212,5 +212,76 @@ func propSpecs() map[string]*PropSpec {
 		c17.Jobs = append(c17.Jobs, JobSpec{Pkg: pkgCM, Harness: "H_C17_F", Params: []int64{3, p}, Bound: fmt.Sprintf("F(3), predicate %s", pnames[p]), Tier: tier})
 	}
 	add(c17)
+
+	cm := func(p *PropSpec, h string, a, b int64, bound, tier string) {
+		p.Jobs = append(p.Jobs, JobSpec{Pkg: pkgCM, Harness: h, Params: []int64{a, b}, Bound: bound, Tier: tier})
+	}
+	// ---- C08
+	c08 := &PropSpec{ID: "C08", Level: "model_checking", Assumptions: append([]string{"reader model: the j-th Read returns min(c_j, remaining, len(p)) bytes with c_j a solver variable in 0..remaining, at most two consecutive empty reads, optionally the terminal condition (io.EOF or the injected error) together with the last data", "lines >= 8 KiB (buffer growth, block-too-large error) are outside the claim"}, commonAssumptions...), QuickSec: 170, ThoroughSec: 1500,
+		Explanation: "bounded symbolic execution of NewBlockParser/NextBlock/Extract/Rewrite under a symbolic read schedule (chunk sizes, empty reads, EOF-with-data) and under a symbolic fault point k, compared with in-memory Parse of the same bytes (of the first k bytes) by deep tree/position/reference-map equality; terminal error persistence asserted"}
+	for n := int64(1); n <= 3; n++ {
+		cm(c08, "H_C08", n, 0, fmt.Sprintf("A(%d, 13-byte-class alphabet), all read schedules", n), "quick")
+		cm(c08, "H_C08", n, 1, fmt.Sprintf("A(%d), all fault points k and schedules", n), "quick")
+	}
+	cm(c08, "H_C08", 102, 0, "F(2) (unconstrained bytes), all read schedules", "quick")
+	cm(c08, "H_C08", 102, 1, "F(2), all fault points", "quick")
+	cm(c08, "H_C08", 4, 0, "A(4), all read schedules", "thorough")
+	cm(c08, "H_C08", 4, 1, "A(4), all fault points", "thorough")
+	cm(c08, "H_C08", 103, 0, "F(3), all read schedules", "thorough")
+	add(c08)
+
+	// ---- C16
+	c16 := &PropSpec{ID: "C16", Level: "model_checking", Assumptions: commonAssumptions, QuickSec: 170, ThoroughSec: 1500,
+		Explanation: "bounded symbolic execution: stream-parse + Rewrite the document, then parse every root block's Source alone with the same reference matcher; exactly one block, identical tree dump, StartOffset 0, StartLine 1"}
+	for n := int64(1); n <= 3; n++ {
+		cm(c16, "H_C16", 0, n, fmt.Sprintf("F(%d)", n), "quick")
+	}
+	cm(c16, "H_C16", 0, 4, "F(4)", "thorough")
+	for _, i := range tlQuick {
+		cm(c16, "H_C16", 1, int64(i), fmt.Sprintf("TL[%d]", i), "quick")
+	}
+	for _, i := range []int64{36, 37, 38, 42, 43, 45, 46, 47, 50, 52, 55, 57, 58} {
+		cm(c16, "H_C16", 1, i, fmt.Sprintf("TL[%d]", i), "thorough")
+	}
+	add(c16)
+
+	// ---- C14
+	c14 := &PropSpec{ID: "C14", Level: "model_checking", Assumptions: append([]string{"padding clause: a pad ending in CR is not combined with an input starting with LF (that forms a CRLF rather than prepending a blank line)", "final-newline clause compared in safe mode modulo line endings adjacent to tags outside <pre>"}, commonAssumptions...), QuickSec: 170, ThoroughSec: 1500,
+		Explanation: "bounded symbolic execution of Parse+Render on x and on crlf(x)/cr(x), pad.x, x.LF built in the harness; outputs compared (one solver query per comparison) after mapping copied line endings; offsets and lines shifted exactly"}
+	for n := int64(1); n <= 3; n++ {
+		cm(c14, "H_C14_eol", 0, n, fmt.Sprintf("line-ending clause, F(%d) without CR", n), "quick")
+		cm(c14, "H_C14_final", 0, n, fmt.Sprintf("final-newline clause, F(%d)", n), "quick")
+	}
+	cm(c14, "H_C14_pad", 0, 1, "padding clause, F(1) x 5 pads", "quick")
+	cm(c14, "H_C14_pad", 0, 2, "padding clause, F(2) x 5 pads", "quick")
+	cm(c14, "H_C14_pad", 0, 3, "padding clause, F(3) x 5 pads", "thorough")
+	for i := int64(0); i < 8; i++ {
+		cm(c14, "H_C14_final", 4, i, fmt.Sprintf("final-newline clause, C14 template %d", i), "quick")
+		cm(c14, "H_C14_eol", 4, i, fmt.Sprintf("line-ending clause, C14 template %d", i), "quick")
+	}
+	cm(c14, "H_C14_eol", 0, 4, "line-ending clause, F(4)", "thorough")
+	cm(c14, "H_C14_final", 0, 4, "final-newline clause, F(4)", "thorough")
+	add(c14)
+
+	// ---- C09
+	c09 := &PropSpec{ID: "C09", Level: "model_checking", Assumptions: append([]string{"quote clause uses the marker '> ' on every line (a bare '>' would consume one column of D's own indentation)", "list clause: a one-item list is tight, so <p> tags are removed from both sides before comparison; markers -, +, *, 1., 9), 12. and N in 1..4 are solver variables", "compared on the safe-mode rendering modulo line endings adjacent to tags outside <pre>"}, commonAssumptions...), QuickSec: 170, ThoroughSec: 1500,
+		Explanation: "bounded symbolic execution of Parse+Render on D and on its quoted / list-indented form built in the harness; single-root and HTML-relation clauses asserted on symbolic outputs"}
+	for n := int64(1); n <= 3; n++ {
+		cm(c09, "H_C09_quote", 0, n, fmt.Sprintf("quote clause, tab-free F(%d)", n), "quick")
+	}
+	cm(c09, "H_C09_list", 0, 1, "list clause, F(1) x 6 markers x 4 widths", "quick")
+	cm(c09, "H_C09_list", 0, 2, "list clause, F(2) x 6 markers x 4 widths", "quick")
+	cm(c09, "H_C09_list", 0, 3, "list clause, F(3) x 6 markers x 4 widths", "thorough")
+	for _, i := range []int64{9, 13, 14, 20, 29, 33, 34, 39, 40, 51, 53} {
+		cm(c09, "H_C09_quote", 1, i, fmt.Sprintf("quote clause, multi-line template TL[%d]", i), "quick")
+	}
+	for _, i := range []int64{9, 20, 33, 39} {
+		cm(c09, "H_C09_list", 1, i, fmt.Sprintf("list clause, multi-line template TL[%d]", i), "quick")
+	}
+	for _, i := range []int64{42, 50, 36, 22, 6} {
+		cm(c09, "H_C09_quote", 1, i, fmt.Sprintf("quote clause, template TL[%d]", i), "thorough")
+	}
+	cm(c09, "H_C09_quote", 0, 4, "quote clause, tab-free F(4)", "thorough")
+	add(c09)
 	return m
 }
